@@ -657,8 +657,8 @@ class NativeH:
     def _val(self, name, gen):
         if name in self.values:
             v = self.values[name]
-        elif self.rng is not None:
-            v = gen()
+        elif name in self.record['values']:
+            v = self.record['values'][name]      # a named input has ONE value per run, however often it is asked for
         else:
             v = gen()
         self.record['values'][name] = v
